@@ -63,6 +63,10 @@ BINOPS = ["+", "-", "*", "/", "%", "&", "|", "^", "<<", ">>", "<", "<=", ">", ">
 THEOREM_MODULES.append("Yarel.Props.FnsTie.CallReturn")
 REQUIRED_THEOREMS += ['call_wrong_arity', 'call_depth_limit']
 REQUIRED_THEOREMS += ['stack_peek_checked', 'stack_push_checked', 'stack_pop_checked', 'stack_truncate_checked']
+# "never ... silently corrupts memory" has the completeness of the collector's tracing as a premise: every pointer-bearing field of every
+# kind of object is traced (the table regenerated from the sources on every run; Props/C01)
+THEOREM_MODULES.append("Yarel.Props.C01")
+REQUIRED_THEOREMS += ['schema_covers', 'schema_wellFormed']
 
 
 def sweep_programs():
@@ -132,6 +136,26 @@ print("done");
         "big-string": "var s = \"ab\"; var i = 0; while i < 16 { s = s + s; i = i + 1; }\nprint(s.len());\nprint(\"done\");\n",
         "many-locals-deep": "fn f(n) { var a0=0; var a1=1; var a2=2; var a3=3; var a4=4; var a5=5; var a6=6; var a7=7; if n == 0 { return 0; } return f(n - 1) + a7; }\ntry { print(f(60)); } catch e { print(\"err\"); }\nprint(\"done\");\n",
     }
+    # the call-depth limit reached through EVERY call form (plain call, closure, method, super, bound method, static method, constructor, a
+    # callback of a core-library adapter), starting 0, 1 and 2 frames deep (which call of an alternating pair meets the limit depends on the
+    # parity): a catchable error each time, the depth reached is the same on a second attempt, and the program runs on
+    forms = {
+        "plain": ("fn rec(n) { try { return rec(n + 1); } catch e { return n; } }", "rec(0)"),
+        "closure": ("var clo = nil; clo = |n| { try { return clo(n + 1); } catch e { return n; } };", "clo(0)"),
+        "method": ("#[constructor(new)] class M { fn m(self, n) { try { return self.m(n + 1); } catch e { return n; } } } var mo = M.new();", "mo.m(0)"),
+        "super": ("#[constructor(new)] class SA { fn m(self, n) { return self.m(n + 1); } } #[derive(SA), constructor(new)] class SB { fn m(self, n) { try { return super.m(n + 1); } catch e { return n; } } } var so = SB.new();", "so.m(0)"),
+        "super-uncaught-inside": ("#[constructor(new)] class TA { fn m(self, n) { return self.m(n + 1); } } #[derive(TA), constructor(new)] class TB { fn m(self, n) { return super.m(n + 1); } } var to = TB.new(); fn tgo() { try { return to.m(0); } catch e { return type(e) == IndexError; } }", "tgo()"),
+        "bound": ("#[constructor(new)] class BM { fn m(self, n) { var again = self.m; try { return again(n + 1); } catch e { return n; } } } var bo = BM.new().m;", "bo(0)"),
+        "static": ("class ST { #[static] fn s(n) { try { return ST.s(n + 1); } catch e { return n; } } }", "ST.s(0)"),
+        "constructor": ("var reached = 0; class CK { #[constructor] fn new(self, n) { reached = n; try { CK.new(n + 1); } catch e { } } }", "(|| { CK.new(0); return reached; })()"),
+        "adapter-callback": ("fn viamap(n) { try { return [n].iter().map(|v| viamap(v + 1)).collect()[0]; } catch e { return n; } }", "viamap(0)"),
+    }
+    for fname, (defs, call) in forms.items():
+        src = (defs + "\nfn one() { return %s; }\nfn two() { return one(); }\n"
+               "var d0 = %s; var d0b = %s; print(d0 == d0b); var d1 = one(); print(d1 == one()); var d2 = two(); print(d2 == two());\n"
+               "print(d0 == true || d0 > 20); print(\"done\");\n") % (call, call, call)
+        limits_forms = ("limit:depth-" + fname, src)
+        progs_.append(limits_forms)
     for k, src in limits.items():
         progs_.append(("limit:" + k, src))
     return progs_
@@ -332,6 +356,16 @@ def correspondence(ctx, model_ok=True):
     return {"failures": dedupe(failures), "coverage": cov, "broken": broken}
 
 
+def search(ctx, broken):
+    """A broken obligation: the edge probes and generated programs of C01 (a swept object used, output depending on the schedule) are
+    the search for a corruption; otherwise nothing is found here."""
+    from props import c01
+    found = c01.search(ctx, broken)
+    for f in found:
+        f["delegate"] = f.get("delegate", "c01")
+    return found
+
+
 def hash_even(s):
     return sum(map(ord, s)) % 3 != 0
 
@@ -344,6 +378,9 @@ def dedupe(failures):
 
 
 def replay(ctx, payload):
+    if payload.get("delegate") in ("c01", "c06"):
+        from props import c01
+        return c01.replay(ctx, payload)
     if "history" in payload:
         exe = ctx.runner
         if payload.get("build", "release") != "release":
